@@ -25,6 +25,9 @@ NA = {
 
 # property -> (category, technique, level text, level note, design ref)
 CLAIMED = {
+    "C24": ("model_checking", "real geometry helpers executed on symbolic shapes, compared with an interval/enumeration reference by z3 (bounded SMT)",
+            "Bounded SMT: for ~90 (quick) / ~180 (thorough) projection structures a*x + b*y + c (optionally a second rank) the real get_stride_and_halo_of_einsum and compute_dense_tile_occupancy run on symbolic shapes X, Y; z3 shows stride == step, halo == extent added by the other variable, occupancy == dense bounding interval, and for unit steps == the number of distinct projected points, for all X, Y in [1,6].",
+            "Only the sympy-backed quantities: rank-variable bounds, operation counts and tensor sizes come from islpy and cannot be run on symbols (not decided). Non-negative coefficients only.", "4/C24"),
     "C21": ("model_checking", "CrossHair symbolic execution of _get_parsable_field_order over all dependency graphs (symbolic Boolean matrix behind a stub of re)",
             "CrossHair explores every path of the real ordering function for every directed dependency graph on 3 definitions and each of the 6 key orders (quick), and on 4 definitions sharded by the first matrix row for three key orders (thorough): an EvaluationError iff the graph is cyclic, otherwise a dependency-respecting permutation. Only 'Confirmed over all paths' counts.",
             "re.findall stubbed by its contract (validated by replays that build real expression strings and run them through Spec._spec_eval_expressions); the scoping clause (component > arch variables > spec variables) is a two-configuration concrete probe; more than 4 definitions and word-prefix names are outside.", "4/C21"),
